@@ -12,7 +12,7 @@ for id in $IDS; do
 	tier=$(python3 -c "import json;print(json.load(open('$d/meta.json')).get('tier','quick'))")
 	out=$(tools/at-commit.sh "$d/patch.diff" "$prop" "$tier" 2>&1)
 	if echo "$out" | grep -q "^VIOLATION property=$prop"; then
-		echo "$id: CAUGHT by $prop $tier ($(echo "$out" | grep -c '^VIOLATION') violation keys; first: $(echo "$out" | grep -m1 'key=' | sed 's/ family.*//' | cut -c1-120))"
+		echo "$id: CAUGHT by $prop $tier ($(echo "$out" | grep -c '^VIOLATION') violation keys; first: $(echo "$out" | grep -m1 '^  key=' | sed 's/ family.*//' | cut -c1-120))"
 	else
 		echo "$id: MISSED by $prop $tier: $(echo "$out" | tail -1 | cut -c1-200)"
 	fi
